@@ -563,7 +563,7 @@ def root_index(snap, idx):
 
 REF_ARG_KEYS = ("t", "x", "y", "p", "d", "parent")
 # ops that must not change any pre-existing object at all
-OBSERVERS = ("clone", "export_leaf", "get_values", "hold_list", "validate", "doc_validate",
+OBSERVERS = ("clone", "export_leaf", "template_clone", "get_values", "hold_list", "validate", "doc_validate",
              "validate_custom", "save", "load", "restart", "advance", "damage_file")
 
 
@@ -636,12 +636,13 @@ def mon_copy(ctx):
     if v:
         return v
     if ctx.raised:
-        if ctx.name in ("clone", "export_leaf"):
+        if ctx.name in ("clone", "export_leaf", "template_clone"):
             return ("copy.returns", "%s raised %s: %s" % (ctx.name, ctx.outcome[1], ctx.outcome[2]))
         return None
     U, post = ctx.U, ctx.post
-    if ctx.name == "clone":
-        orig = ctx.args["x"]
+    if ctx.name in ("clone", "template_clone"):
+        # template_clone: the original is the Section of the template document the handler keeps
+        orig = ctx.args["x"] if ctx.name == "clone" else U.objs[ctx.outcome[1]["of"]]
         new = U.objs[ctx.outcome[1]["new"]]
         oi, ni = U.index(orig), U.index(new)
         children = ctx.args.get("children", True) or kind_of(orig) == "prop"
